@@ -224,7 +224,8 @@ func normalize02(doc obj, t *GenTree, gr *GenRes) {
 		if ps, ok := l.Kust["patches"].([]interface{}); ok {
 			for _, p := range ps {
 				tg := p.(obj)["target"].(obj)
-				if tg["kind"] == kind && tg["name"] == origName {
+				// independent matcher: the target's kind and name are full-match regular expressions
+				if fullMatch(fmt.Sprint(tg["kind"]), kind) && fullMatch(fmt.Sprint(tg["name"]), origName) {
 					patched = true
 				}
 			}
@@ -289,6 +290,14 @@ func normalize02(doc obj, t *GenTree, gr *GenRes) {
 		v, _ = deleteAt(v, []string{"metadata", "annotations"}, map[string]bool{"patched": true})
 	}
 	_ = v
+}
+
+func fullMatch(pat, s string) bool {
+	re, err := regexp.Compile("^(?:" + pat + ")$")
+	if err != nil {
+		return false
+	}
+	return re.MatchString(s)
 }
 
 var docSep = regexp.MustCompile(`(?m)^---\s*$`)
